@@ -1021,7 +1021,12 @@ def run(tier: str, replay: str | None = None):
             terms.append(model_term(case, b))
             meta.append((ci, ki))
     model = {}
-    model_ok = not any("build failed" in x for x in proof.broken) and not narrow_oof
+    model_ok = not any("build failed" in x for x in proof.broken)
+    if not model_ok:
+        # a pin / translation obligation / proof is broken: the search for a failing input goes on, and the model
+        # itself is still used when its own file builds (only Proofs/ and Properties/ depend on the broken part)
+        model_ok, _ = lib.coq_make(["theories/Eval/TypeEval.vo"], timeout=600)
+    model_ok = model_ok and not narrow_oof
     if model_ok and terms:
         try:
             vals = lib.coq_eval(coq_header(acc, narrow), terms, name="c20", jobs=6)
@@ -1112,7 +1117,8 @@ def run(tier: str, replay: str | None = None):
                     elif any_union_guard(case, call) and has_permissive_test(case["body"]) and m is not None and m == dset:
                         # hypothesis narrow_id fails: the Any member is converted by an exclude_any=False test
                         known.append(("C20-any-permissive-conversion", ci, ki))
-                    elif any_union_guard(case, call) and m is None and not model_ok:
+                    elif sup and any_union_guard(case, call) and m is None and not model_ok:
+                        # the model could not be evaluated; a superset is the direction the finding predicts
                         undecided += 1
                     else:
                         failing.append((ci, ki, "union call is not the union of the member calls" + (" (superset)" if sup else " (members' results missing: unsound)"), dset, want))
